@@ -358,6 +358,7 @@ def main():
     run.outside = ['resolution of the trapezoid / Simpson grids', 'OpenMP scheduling', 'initial imperfections', 'reduction to the linear stiffness for vanishing amplitudes involves the analytic k0 (C16)',
                    'iso_ non-linear modules outside the ConeCyl route (their calc_k0L / calc_kLL are decided through ConeCyl._calc_NL_matrices only)', 'fsdt bcn']
     res = pmap(kprop.job, [(__name__, c) for c in cf])
+    res = kprop.explore_loci(__name__, res, run)      # second pass: the equality loci the executed code branched on
     kprop.handle(run, res, build, 'entries violate the tangent/Jacobian identity', signature=signature)
     # replay on the compiled kernels: the entries that fail symbolically for (m1, m2, n2) = (2, 2, 1) on the cone
     sym_fail = {}
